@@ -17,4 +17,18 @@ PROPS = {
         assumptions=["the theorem is about the portable (purego) algorithm of segmentio/asm@go.mod version; "
                      "assembly ≡ purego is established by sweep up to length L, not by proof"],
     ),
+    "C03": dict(
+        lean_modules=["Enc.Props.C03"],
+        variants=V_DEFAULT,
+        areas=["proto."],
+        allowed_native=["Enc.Lemmas.Proto."],
+        main_theorem="Enc.Props.C03.size_eq_len_encode / roundtrip",
+        rule="random message types (reflect.StructOf: scalars, byte arrays, RawMessage, nested/pointer structs, repeated, maps, "
+             "protobuf struct tags with numbers/zigzag/fixed) x random values (integer width boundaries, float bit patterns, "
+             "nil vs empty, collection sizes around the cap-10 growth); ops: Marshal (bytes+Size vs Lean model, byte for byte), "
+             "round trip Unmarshal(Marshal(v)) vs canon(v) and vs the Lean reference decoder, second Marshal for determinism; "
+             "varint/zigzag primitives at every 7-bit boundary. distinct = distinct (op,args) line",
+        trusted_base=["inline flag / unsafe pointer representation / recursive types are not modelled (harness only)"],
+        assumptions=["Ty/Val universe: finite trees (no recursive message types); user Message implementers represented by RawMessage"],
+    ),
 }
